@@ -41,7 +41,7 @@ ASSUMPTIONS = [
     "same host unless the scenario says foreign-host",
     "resubmission budget: 120 simulated seconds and 60k scheduler steps",
 ]
-PROBES = ["stale_lock_broken", "torn_result_retried", "resub_cache_hit", "resub_reexecuted", "kill_inside_body", "kill_mid_write"]
+PROBES = ["resub_after_pool_kill", "stale_lock_broken", "torn_result_retried", "resub_cache_hit", "resub_reexecuted", "kill_inside_body", "kill_mid_write"]
 
 SCENARIOS = ["plain", "slow", "errored_existing", "rerun_existing", "wf", "failing", "foreign_host"]
 X = 4
@@ -182,6 +182,10 @@ def plan(tier, seed):
     for L in lens:
         cases.append({"id": f"trunc-{L}", "scen": "truncate", "fine": False, "k": L, "n": tl, "label": f"truncate _result.pklz to {L}/{tl} bytes"})
     lockstep.POOL.close()
+    # sampled: a pool worker of an asynchronous workflow submission is SIGKILLed at a seeded
+    # moment; the same workflow is then submitted again into the same cache root
+    for i in range({"quick": 40}.get(tier, 600)):
+        cases.append({"id": f"pool-{i}", "scen": "pool", "fine": False, "k": i, "n": 0, "label": "SIGKILL of a pool worker at a seeded step"})
     if tier == "thorough":
         # second crash during recovery (sampled), resubmission racing a second submitter
         base = [c for c in cases if c["scen"] in ("slow", "wf", "rerun_existing") and not c["fine"]]
@@ -240,8 +244,75 @@ def _residue(cache):
     return shape
 
 
+def _run_pool_case(case, ch, workdir, res):
+    from checks import wfcommon as wc
+    from simlib import wfgen
+
+    seed = int(os.environ.get("VERIF_SEED", "0") or 0)
+    spec, _ = wc.spec_for(seed, 9000 + case["k"], nested=False)
+    desc = wfgen.describe(spec)
+    rstat, rval, revents = wc.reference_run(spec, os.path.join(workdir, "refcache"))
+    res["sample"] = {"scenario": "pool", "workflow": desc, "reference": rstat}
+    if rstat != "ok":
+        res["digest"] = "rejected"
+        return res
+    cache = os.path.join(workdir, "cache")
+    prof = wc.gen_profile(ch)
+    kill_after = ch.randint(1, 60, "kill-after")
+    cnt = [0]
+    fired = []
+
+    def hook(env, p):
+        cnt[0] += 1
+        if not fired and cnt[0] >= kill_after and p.npoints > 3:
+            fired.append(env.sim.label_text(p.pending))
+            env.kill_worker(p)
+            return "skip"
+        return None
+
+    env, status, val = wc.sim_run(ch, workdir, spec, prof, cache=cache, salt=case["id"] + "a", fault_hook=hook)
+    env.close()
+    d1 = env.sim.digest()
+    res["faults"] = dict(env.sim.faults)
+    steps = env.sim.steps
+    if not fired:
+        res["digest"] = "nofault" + d1
+        return res
+    res["fault_trace"].append(f"SIGKILL pool worker at {fired[0]}; first submission -> {status}")
+    if status == "hang":
+        violation(res, "wedged", "pool", f"first submission did not terminate after the worker was killed: {val}; workflow {desc}")
+        return res
+    complete = _complete_results(cache)
+    prof2 = dict(prof)
+    env2, status2, val2 = wc.sim_run(ch, workdir, spec, prof2, cache=cache, salt=case["id"] + "b")
+    try:
+        enters, order, _p = wc.exec_summary(env2.sim.events)
+        res["steps"] = steps + env2.sim.steps
+        res["sim_s"] = env2.sim.now - 1_700_000_000.0
+        res["digest"] = d1[:10] + env2.sim.digest()[:10]
+        res["nontrivial"] = True
+        res["probes"] = dict(env2.sim.probes)
+        res["probes"]["resub_after_pool_kill"] = 1
+        res["sample"].update({"first": status, "resubmission": status2, "killed_at": fired[0], "complete_results_after_crash": sum(1 for v in complete.values() if v)})
+        ctx = f"workflow {desc}; pool worker killed at [{fired[0]}], first submission -> {status}; complete results on disk then: {sum(1 for v in complete.values() if v)}"
+        if status2 == "hang":
+            violation(res, "wedged", "pool", f"resubmission did not terminate: {val2}; {ctx}")
+        elif status2 != "ok":
+            violation(res, "resub-error", "pool", f"resubmission raised {val2.get('type')}: {val2.get('msg', '')[:400]}; {ctx}")
+        elif val2 != rval:
+            violation(res, "wrong-result", "pool", f"resubmission returned {str(val2)[:200]}, reference {str(rval)[:200]}; {ctx}")
+        for key, n in enters.items():
+            if n > 1:
+                violation(res, "double-exec", "pool", f"{key[:80]} executed {n} times by the resubmission; {ctx}")
+    finally:
+        env2.close()
+    return res
+
+
 def run_case(case, ch, workdir):
     res = blank_result()
+    if case["scen"] == "pool":
+        return _run_pool_case(case, ch, workdir, res)
     scen, fine, k = case["scen"], case["fine"], case["k"]
     cache = os.path.join(workdir, "cache")
     os.makedirs(cache)
@@ -387,7 +458,7 @@ def _is_full(cases):
     # exhaustive over the recorded point set iff every k of every scenario is present
     seen = {}
     for c in cases:
-        if "double" in c or "race" in c:
+        if "double" in c or "race" in c or c["scen"] == "pool":
             continue
         seen.setdefault((c["scen"], c["fine"]), set()).add(c["k"])
     for (scen, fine), ks in seen.items():
